@@ -1,5 +1,5 @@
 SPECIFICATION Spec
-CONSTANTS NPts = 3  Need = 5  ThreadMarginal = FALSE
+CONSTANTS NPts = 3  Need = 5  CacheFeedsMarginal = FALSE  ThreadMarginal = FALSE
 CHECK_DEADLOCK FALSE
 INVARIANT Reproducible
 INVARIANT UnseededDiffer
